@@ -1481,3 +1481,139 @@ Proof.
   intros H1 H2 H3 H4 H5. unfold vm_send. rewrite H1, H2, H3. cbn [negb]. rewrite H4, H5.
   destruct (sd _ _ _ _ _) as [W4 [code r]]. eauto.
 Qed.
+
+(* ------------------------------------------------------------------------------------------ *)
+(* an approval enters a pending transaction only for the caller of the method: approvals are never
+   forged, copied or moved between transactions *)
+Definition approvals_from (cur : wallet) (caller : N) (id : Z) (t' : txn) : Prop :=
+  forall a, a ∈ t_approved t' ->
+    a = caller \/ exists t, pending cur !! id = Some t /\ a ∈ t_approved t /\ same_body t t'.
+
+Lemma approve_transaction_approvals cur bal e caller id t k :
+  match approve_transaction cur bal e caller id t k with
+  | Fail _ => True
+  | Done st' _ => forall i x, pending st' !! i = Some x ->
+       (i = id /\ x = set_approved t (t_approved t ++ [caller])) \/ (i <> id /\ pending cur !! i = Some x)
+  | Send st' i t' _ => i = id /\ t' = set_approved t (t_approved t ++ [caller]) /\
+       forall j x, pending st' !! j = Some x -> j <> id /\ pending cur !! j = Some x
+  end.
+Proof.
+  unfold approve_transaction, exec_if_approved.
+  destruct (mem caller (t_approved t)); [exact I|]. cbn [threshold set_pending pending].
+  destruct (threshold cur <=? _).
+  - destruct (check_available _ _ _ _); [exact I|]. split; [reflexivity|]. split; [reflexivity|].
+    intros j x Hx. cbn in Hx. apply lookup_delete_Some in Hx as [Hne Hx].
+    rewrite lookup_insert_ne in Hx by congruence. split; [congruence|assumption].
+  - intros i x Hx. cbn in Hx. destruct (decide (i = id)) as [->|Hne].
+    + rewrite lookup_insert in Hx. inversion Hx. left. auto.
+    + rewrite lookup_insert_ne in Hx by congruence. right. auto.
+Qed.
+
+Theorem approvals_only_by_caller cur bal e caller self ex o :
+  wallet_inv cur ->
+  match wallet_method cur bal e caller self ex o with
+  | Fail _ => True
+  | Done st' _ => forall id t', pending st' !! id = Some t' -> approvals_from cur caller id t'
+  | Send st' id t _ =>
+      approvals_from cur caller id t /\
+      forall i t', pending st' !! i = Some t' -> approvals_from cur caller i t'
+  end.
+Proof.
+  intros (Hwf & Hp & _).
+  assert (forall i x, pending cur !! i = Some x -> approvals_from cur caller i x) as Hsame.
+  { intros i x Hx a Ha. right. exists x. split; [assumption|]. split; [assumption|apply same_body_refl]. }
+  destruct o; cbn [wallet_method].
+  - unfold propose. destruct (value <? 0); [exact I|]. destruct (negb _); [exact I|].
+    match goal with |- context [approve_transaction ?c ?b ?e ?ca ?i ?t ?k] =>
+      pose proof (approve_transaction_approvals c b e ca i t k) as H;
+      destruct (approve_transaction c b e ca i t k) as [c0|st' r|st' i0 t0 k0] end; [exact I| |].
+    + intros id t' Ht'. destruct (H id t' Ht') as [(-> & ->)|(Hne & Hx)].
+      * intros a Ha. cbn in Ha. apply elem_of_list_singleton in Ha. left. assumption.
+      * cbn in Hx. rewrite lookup_insert_ne in Hx by congruence. apply Hsame. assumption.
+    + destruct H as (-> & -> & H). split.
+      * intros a Ha. cbn in Ha. apply elem_of_list_singleton in Ha. left. assumption.
+      * intros i t' Ht'. destruct (H i t' Ht') as (Hne & Hx).
+        cbn in Hx. rewrite lookup_insert_ne in Hx by congruence. apply Hsame. assumption.
+  - unfold approve. destruct (negb _); [exact I|].
+    destruct (pending cur !! id) as [t|] eqn:Et; [|exact I].
+    destruct (_ && _); [exact I|].
+    unfold exec_if_approved at 1.
+    destruct (threshold cur <=? _).
+    + destruct (check_available _ _ _ _); [exact I|]. split; [apply Hsame; assumption|].
+      intros i t' Ht'. cbn in Ht'. apply lookup_delete_Some in Ht' as [_ Ht']. apply Hsame. assumption.
+    + pose proof (approve_transaction_approvals cur bal e caller id t KAppr) as H.
+      assert (approvals_from cur caller id (set_approved t (t_approved t ++ [caller]))) as Hnew.
+      { intros a Ha. cbn in Ha. apply elem_of_app in Ha as [Ha|Ha].
+        - right. exists t. split; [assumption|]. split; [assumption|repeat split].
+        - apply elem_of_list_singleton in Ha. left. assumption. }
+      destruct (approve_transaction cur bal e caller id t KAppr) as [c0|st' r|st' i0 t0 k0]; [exact I| |].
+      * intros i t' Ht'. destruct (H i t' Ht') as [(-> & ->)|(Hne & Hx)]; [assumption|apply Hsame; assumption].
+      * destruct H as (-> & -> & H). split; [assumption|].
+        intros i t' Ht'. destruct (H i t' Ht') as (Hne & Hx). apply Hsame. assumption.
+  - unfold cancel. destruct (negb _); [exact I|].
+    destruct (pending cur !! id) as [t|]; [|exact I].
+    destruct (negb _); [exact I|]. destruct (_ && _); [exact I|].
+    intros i t' Ht'. cbn in Ht'. apply lookup_delete_Some in Ht' as [_ Ht']. apply Hsame. assumption.
+  - unfold add_signer.
+    repeat match goal with |- context [if ?b then _ else _] => destruct b; try exact I end.
+    all: intros i t' Ht'; cbn in Ht'; apply Hsame; assumption.
+  - unfold remove_signer.
+    repeat match goal with |- context [if ?b then _ else _] => destruct b; try exact I end.
+    all: intros i t' Ht'; cbn in Ht'; rewrite purge_lookup in Ht';
+      destruct (pending cur !! i) as [t|] eqn:Et; [|discriminate];
+      intros x Hx; right; exists t; split; [exact Et|];
+      apply purge_txn_some in Ht' as [(Hb & Hap & _)|(Hb & Hap & _)];
+      (split; [rewrite Hap in Hx; apply remove_addr_elem in Hx; tauto|assumption]).
+  - unfold swap_signer.
+    repeat match goal with |- context [if ?b then _ else _] => destruct b; try exact I end.
+    all: intros i t' Ht'; cbn in Ht'; rewrite purge_lookup in Ht';
+      destruct (pending cur !! i) as [t|] eqn:Et; [|discriminate];
+      intros x Hx; right; exists t; split; [exact Et|];
+      apply purge_txn_some in Ht' as [(Hb & Hap & _)|(Hb & Hap & _)];
+      (split; [rewrite Hap in Hx; apply remove_addr_elem in Hx; tauto|assumption]).
+  - unfold change_threshold.
+    repeat match goal with |- context [if ?b then _ else _] => destruct b; try exact I end.
+    all: intros i t' Ht'; cbn in Ht'; apply Hsame; assumption.
+  - unfold lock_balance.
+    repeat match goal with |- context [if ?b then _ else _] => destruct b; try exact I end.
+    all: intros i t' Ht'; cbn in Ht'; apply Hsame; assumption.
+Qed.
+
+(* ------------------------------------------------------------------------------------------ *)
+(* every nested call starts in a world that satisfies the invariant: the VM consults its nested
+   sender only on such worlds (two senders that agree on invariant worlds are indistinguishable) *)
+Theorem calls_start_in_invariant_worlds sd1 sd2 e :
+  (forall W from to v p, inv W -> sd1 W from to v p = sd2 W from to v p) ->
+  forall W from to v p, inv W -> vm_send sd1 e W from to v p = vm_send sd2 e W from to v p.
+Proof.
+  intros H W from to v p HW. unfold vm_send.
+  destruct (negb (v =? 0) && (v <? 0)); [reflexivity|].
+  destruct (negb (v =? 0) && (balance W from <? v)); [reflexivity|].
+  destruct (negb (exists_b W to)); [reflexivity|].
+  destruct p as [|c|o]; [reflexivity|reflexivity|].
+  assert (inv (transfer W from to v)) as HW1 by (apply inv_transfer; assumption).
+  destruct (wallets (transfer W from to v) !! to) as [cur|] eqn:Ecur; [|reflexivity].
+  destruct HW1 as (Hw1 & _). destruct (Hw1 to cur Ecur) as (Hcinv & _).
+  pose proof (m_method_post cur (balance (transfer W from to v) to) e from to
+                (exists_b (transfer W from to v)) o Hcinv) as HM.
+  destruct (wallet_method _ _ _ _ _ _ _) as [c|st' r|st' id t k]; [reflexivity|reflexivity|].
+  destruct HM as (Hinv' & Hext & SF).
+  rewrite H.
+  - reflexivity.
+  - eapply frame_inv; eauto.
+Qed.
+
+Theorem amount_locked_spec st x :
+  (unlock_dur st <= x -> amount_locked st x = 0) /\
+  (x < unlock_dur st -> x <= 0 -> amount_locked st x = init_bal st) /\
+  (0 < x < unlock_dur st ->
+     let L := amount_locked st x in
+     unlock_dur st * (L - 1) < init_bal st * (unlock_dur st - x) <= unlock_dur st * L) /\
+  (0 <= init_bal st -> 0 <= amount_locked st x <= init_bal st) /\
+  (0 <= init_bal st -> forall y, x <= y -> amount_locked st y <= amount_locked st x).
+Proof.
+  destruct (amount_locked_cases st x) as (H1 & H2 & H3).
+  split; [assumption|]. split; [assumption|]. split.
+  - intros Hx. cbv zeta. rewrite (H3 Hx). apply div_ceil_spec. lia.
+  - split; [apply amount_locked_bounds|]. intros Hi y Hy. apply amount_locked_mono; assumption.
+Qed.
